@@ -17,6 +17,26 @@ def refuses_invalid(ctx, rng, n):
     for _ in range(n):
         s, name, owner, desc = M.mutate(rng, only=("C01", "C02", "C04", "C06", "C07", "C10"))
         docs.append((name, S.render(s, random.Random(rng.randrange(1 << 30)), spelling="id" if name in M.FORCE_ID_SPELLING else "mixed")))
+    # structurally damaged documents: each root collection removed from a conformant document, and damage of the
+    # kinds C11 uses (missing / mistyped / forbidden properties anywhere in the tree)
+    import copy
+    from corr import interp as I
+    import checks.c04 as c04
+    flat = c04.base_scenario()          # three independent actions, no checkpoint: every other collection is empty,
+    flat["checkpoints"] = []            # so that removing a root property is the document's only defect
+    for a in flat["actions"]:
+        a["dep"] = None
+    goods = [S.render(flat, random.Random(1), spelling="id")]
+    goods += [S.render(S.gen_valid(rng), random.Random(rng.randrange(1 << 30)), spelling="mixed") for _ in range(max(2, n // 20))]
+    for good in goods:
+        for key in list(good):
+            d = copy.deepcopy(good)
+            del d[key]
+            docs.append(("root property %r removed" % key, d))
+        for kind in rng.sample(I.DAMAGE_KINDS, 6):
+            res = I.damage(rng, good, kind)
+            if res is not None and isinstance(res[0], dict):
+                docs.append(("structural damage %s at %s" % (kind, res[1]), res[0]))
     code = r'''
 import sys, json, os, io, contextlib
 sys.path.insert(0, %r); os.chdir(%r)
@@ -51,7 +71,14 @@ def run(ctx):
     ok, thms, log = kernel.proof_step(ctx)
     rng = random.Random(ctx.seed)
     n = 400 if ctx.tier == "quick" else 4000
-    cases, results, discarded, rejected = G.prepare(rng, n, ctx.repo_copy)
+    try:
+        cases, results, discarded, rejected = G.prepare(rng, n, ctx.repo_copy)
+    except (RuntimeError, subprocess.TimeoutExpired) as e:
+        # the implementation could not be run to completion on the generated schemas (crash outside the recorded
+        # calls, or no termination within the time limit): the property is no longer shown to hold
+        ctx.violation({"what": "the graph / board implementation could not be run on the generated schemas", "detail": str(e)[-1500:]}, no_input=True)
+        ctx.coverage.update({"evaluations": 0, "distinct_nontrivial": 0, "rule": "runner failed", "samples": [], "disagreements_checked": 1})
+        return
     files = []
     for k in range(0, len(cases), G.MAX_CASES_PER_FILE):
         files.append(("graph_%03d" % (k // G.MAX_CASES_PER_FILE), G.coq_file(cases[k:k + G.MAX_CASES_PER_FILE], results[k:k + G.MAX_CASES_PER_FILE])))
